@@ -1022,7 +1022,274 @@ end Slicec.Gen
     return text, len(all_variants) + len(type_variants) + len(prim_keys) + len(wants) + 3
 
 
+def fn_body_after_params(src, name, table, rel):
+    """like fn_body, for signatures whose parameter list contains braces (destructuring patterns)"""
+    m = re.search(r"\bfn\s+" + re.escape(name) + r"\b", src)
+    if not m:
+        raise ExtractionError(table, rel, f"fn {name} not found")
+    params = block_after(src, m.end(), "(", ")")
+    if params is None:
+        raise ExtractionError(table, rel, f"parameter list of fn {name} not found")
+    b = block_after(src, src.find("(", m.end()) + len(params) + 2)
+    if b is None:
+        raise ExtractionError(table, rel, f"body of fn {name} not found")
+    return b
+
+
+def top_level_groups(src, open_ch="(", close_ch=")"):
+    """balanced top-level groups of src (string literals skipped), without their delimiters"""
+    out, i = [], 0
+    while True:
+        j = src.find(open_ch, i)
+        if j < 0:
+            return out
+        # do not start inside a string literal
+        k, in_str = i, False
+        while k < j:
+            if src[k] == "\\" and in_str:
+                k += 1
+            elif src[k] == '"':
+                in_str = not in_str
+            k += 1
+        if in_str:
+            e = src.find('"', j)
+            if e < 0:
+                return out
+            i = e + 1
+            continue
+        b = block_after(src, j, open_ch, close_ch)
+        if b is None:
+            return out
+        out.append(b)
+        i = j + len(b) + 2
+
+
+
+def gen_lints(repo):
+    """lint kinds, allowable identifiers, default levels, the level-rewrite shape of `into_updated`, the scope
+    expression recorded at every lint creation site, `allow` argument validation and attribute inheritance (C13)"""
+    T = "Lints"
+    rel = "slicec/src/diagnostics/lints.rs"
+    src = read(repo, rel, T)
+    m = re.search(r"implement_diagnostic_functions!\s*\(", src)
+    if not m:
+        raise ExtractionError(T, rel, "implement_diagnostic_functions!( not found")
+    blk = block_after(src, m.end() - 1, "(", ")")
+    if blk is None or not re.match(r"\s*Lint\s*,", blk):
+        raise ExtractionError(T, rel, "implement_diagnostic_functions!(Lint, ...) has an unexpected shape")
+    kinds = []
+    for g in top_level_groups(blk):
+        mk = re.match(r"\s*([A-Z]\w*)\s*,", g)
+        if not mk:
+            raise ExtractionError(T, rel, "a lint row does not start with its kind: " + g.strip()[:40])
+        kinds.append(mk.group(1))
+    if not kinds or len(set(kinds)) != len(kinds):
+        raise ExtractionError(T, rel, "no lint kinds / repeated lint kinds")
+    body = fn_body(src, "get_default_level", T, rel)
+    levels = dict((a, b) for a, b in re.findall(r"Self::(\w+)\s*(?:\{[^}]*\}|\([^)]*\))?\s*=>\s*DiagnosticLevel::(\w+)", body))
+    wild = re.search(r"\b_\s*=>\s*DiagnosticLevel::(\w+)", body)
+    rows = []
+    for k in kinds:
+        lv = levels.get(k) or (wild.group(1) if wild else None)
+        if lv not in ("Error", "Warning", "Allowed"):
+            raise ExtractionError(T, rel, f"get_default_level: no level understood for {k}")
+        rows.append((k, lv))
+
+    rel2 = "slicec/src/diagnostics/mod.rs"
+    msrc = read(repo, rel2, T)
+    m = re.search(r"ALLOWABLE_LINT_IDENTIFIERS\s*:\s*\[\s*&'static\s+str\s*;\s*(\d+)\s*\]\s*=\s*\[(.*?)\]\s*;", msrc, re.S)
+    if not m:
+        raise ExtractionError(T, rel2, "ALLOWABLE_LINT_IDENTIFIERS array not found")
+    # expected: string literals followed by the splice `$(stringify!($kind)),*`
+    joined = re.sub(r"\s+", "", m.group(2))
+    ms = re.match(r'((?:"[^"]*",)*)\$\(stringify!\(\$kind\)\),\*$', joined)
+    if not ms:
+        raise ExtractionError(T, rel2, "ALLOWABLE_LINT_IDENTIFIERS is not `[<literals>, $(stringify!($kind)),*]`")
+    lits = re.findall(r'"([^"]*)"', ms.group(1))
+    allowable = lits + kinds
+    if int(m.group(1)) != len(allowable):
+        raise ExtractionError(T, rel2, f"ALLOWABLE_LINT_IDENTIFIERS declares {m.group(1)} entries, {len(allowable)} understood")
+    if not re.search(r"\$\(\s*implement_diagnostic_functions!\(@error\s+Lint::\$kind\s*,\s*\$\(\$variant\),\*\)\s*=>\s*stringify!\(\$kind\)", msrc):
+        raise ExtractionError(T, rel2, "Lint::code() is not `stringify!($kind)`")
+
+    # ---- the level rewrite ------------------------------------------------------------------------
+    rel3 = "slicec/src/diagnostics/diagnostic.rs"
+    dsrc = read(repo, rel3, T)
+    upd = fn_body(dsrc, "into_updated", T, rel3)
+    by = re.sub(r"\s+", "", fn_body(upd, "is_lint_allowed_by", T, rel3))
+    mexact = re.fullmatch(r'identifiers\.any\(\|identifier\|identifier=="(\w+)"\|\|identifier==lint\.code\(\)\)', by)
+    mfold = re.fullmatch(r'identifiers\.any\(\|identifier\|identifier\.eq_ignore_ascii_case\("(\w+)"\)\|\|identifier\.eq_ignore_ascii_case\(lint\.code\(\)\)\)', by)
+    if mexact:
+        all_kw, ignore_case = mexact.group(1), False
+    elif mfold:
+        all_kw, ignore_case = mfold.group(1), True
+    else:
+        raise ExtractionError(T, rel3, "is_lint_allowed_by: comparison not understood: " + by[:120])
+    if all_kw not in lits:
+        raise ExtractionError(T, rel3, f"the catch-all identifier `{all_kw}` is not an allowable identifier")
+    bya = re.sub(r"\s+", "", fn_body(upd, "is_lint_allowed_by_attributes", T, rel3))
+    if not ("attributable.all_attributes()" in bya and "a.downcast::<attributes::Allow>()" in bya
+            and "allowed.any(|allow|is_lint_allowed_by(allow.allowed_lints.iter(),lint))" in bya):
+        raise ExtractionError(T, rel3, "is_lint_allowed_by_attributes has an unexpected shape")
+    loop_m = re.search(r"for\s+diagnostic\s+in\s+&mut\s+self\.0\s*", upd)
+    if not loop_m:
+        raise ExtractionError(T, rel3, "into_updated: loop over the diagnostics not found")
+    loop = re.sub(r"\s+", "", block_after(upd, loop_m.end()))
+    steps = ["ifletDiagnosticKind::Lint(lint)=&diagnostic.kind{",
+             "ifis_lint_allowed_by(options.allowed_lints.iter(),lint){diagnostic.level=DiagnosticLevel::Allowed;}",
+             "ifletSome(span)=diagnostic.span(){",
+             "files.iter().find(|f|f.relative_path==span.file)",
+             "ifis_lint_allowed_by_attributes(file,lint){diagnostic.level=DiagnosticLevel::Allowed;}",
+             "ifletSome(scope)=diagnostic.scope(){",
+             "ifletOk(entity)=ast.find_element::<dynEntity>(scope){",
+             "ifis_lint_allowed_by_attributes(entity,lint){diagnostic.level=DiagnosticLevel::Allowed;}"]
+    pos = 0
+    for stp in steps:
+        q = loop.find(stp, pos)
+        if q < 0:
+            raise ExtractionError(T, rel3, "into_updated: step not found (or out of order): " + stp[:70])
+        pos = q + len(stp)
+    guarded = block_after(loop, 0)
+    if guarded is None or loop != steps[0] + guarded + "}":
+        raise ExtractionError(T, rel3, "into_updated: the loop body is not exactly one `if let DiagnosticKind::Lint(lint) = &diagnostic.kind { … }`")
+    if not loop.startswith(steps[0]) or loop.count("diagnostic.level=") != 3 or len(re.findall(r"\.level\s*=[^=]", upd)) != 3:
+        raise ExtractionError(T, rel3, "into_updated: the loop body is not a single `if let Lint` with three level assignments")
+    newb = re.sub(r"\s+", "", fn_body(dsrc, "new", T, rel3))
+    if "DiagnosticKind::Error(_)=>DiagnosticLevel::Error," not in newb or "DiagnosticKind::Lint(lint)=>lint.get_default_level()," not in newb:
+        raise ExtractionError(T, rel3, "Diagnostic::new: initial level has an unexpected shape")
+
+    # ---- scope recorded at every lint creation site -----------------------------------------------
+    base = os.path.join(repo, "slicec", "src")
+    sites = []
+    for dirpath, _, files in sorted(os.walk(base)):
+        for fn in sorted(files):
+            if not fn.endswith(".rs"):
+                continue
+            relf = os.path.relpath(os.path.join(dirpath, fn), repo)
+            if relf in (rel, rel2):
+                continue
+            fsrc = strip_test_modules(read(repo, relf, T))
+            for mm in re.finditer(r"\.set_scope\(", fsrc):
+                arg = block_after(fsrc, mm.end() - 1, "(", ")")
+                # the statement that builds the diagnostic: back to the nearest `Diagnostic::new(` / construct_lint_from(
+                back = fsrc[:mm.start()]
+                a = back.rfind("Diagnostic::new(")
+                b = back.rfind("construct_lint_from(")
+                if max(a, b) < 0:
+                    raise ExtractionError(T, relf, "set_scope without a diagnostic constructor before it")
+                if b > a:
+                    kind = "MalformedDocComment"
+                    head = fsrc[b:mm.start()]
+                else:
+                    head = fsrc[a:mm.start()]
+                    mk = re.match(r"Diagnostic::new\(\s*Lint::(\w+)", head)
+                    if not mk:
+                        raise ExtractionError(T, relf, "set_scope on something that is not a lint: " + head[:50])
+                    kind = mk.group(1)
+                if "push_into" in head:
+                    raise ExtractionError(T, relf, "set_scope could not be attributed to its diagnostic")
+                sites.append((kind, relf[len("slicec/src/"):], re.sub(r"\s+", "", arg)))
+            # every lint creation without a scope must be listed too
+            for mm in re.finditer(r"Lint::(\w+)\s*\{", fsrc):
+                stmt = fsrc[mm.start():]
+                end = stmt.find("push_into")
+                seg = stmt[:end if end >= 0 else 400]
+                if "set_scope" not in seg:
+                    sites.append((mm.group(1), relf[len("slicec/src/"):], "-" if "set_span" not in seg else "-span"))
+    # construct_lint_from creates MalformedDocComment without scope; the scope is attached by its (only) caller
+    sites = [s for s in sites if not (s[1] == "parsers/comments/mod.rs" and s[0] == "MalformedDocComment")]
+    psrc = read(repo, "slicec/src/parsers/comments/mod.rs", T)
+    if len(re.findall(r"Lint::MalformedDocComment", psrc)) != 3 or "set_scope" in psrc:
+        raise ExtractionError(T, "slicec/src/parsers/comments/mod.rs", "construct_lint_from has an unexpected shape")
+    gsrc = re.sub(r"\s+", "", fn_body(read(repo, "slicec/src/parsers/slice/grammar.rs", T), "parse_doc_comment", T, "slicec/src/parsers/slice/grammar.rs"))
+    if not ("letscoped_identifier=get_scoped_identifier(identifier,&parser.current_scope.parser_scope);" in gsrc
+            and "CommentParser::new(parser.file_name,&scoped_identifier,parser.diagnostics)" in gsrc):
+        raise ExtractionError(T, "slicec/src/parsers/slice/grammar.rs", "parse_doc_comment does not hand the element's scoped identifier to the comment parser")
+    for k, _, _ in sites:
+        if k not in kinds:
+            raise ExtractionError(T, rel, f"lint kind {k} is created but not declared")
+    for k in kinds:
+        if not any(s[0] == k for s in sites):
+            raise ExtractionError(T, rel, f"no creation site found for lint {k}")
+    sites = sorted(set(sites))
+
+    # ---- `allow` attribute: argument validation, targets --------------------------------------------
+    rel4 = "slicec/src/grammar/attributes/allow.rs"
+    asrc = read(repo, rel4, T)
+    pf = re.sub(r"\s+", "", fn_body_after_params(asrc, "parse_from", T, rel4))
+    if "letmutis_valid=Lint::ALLOWABLE_LINT_IDENTIFIERS.contains(&arg.as_str());" not in pf or "letallowed_lints=args.clone();" not in pf:
+        raise ExtractionError(T, rel4, "Allow::parse_from: validation / stored arguments have an unexpected shape")
+    rejected = re.findall(r'ifarg=="(\w+)"\{is_valid=false;\}', pf)
+    vo = re.sub(r"\s+", "", fn_body(asrc, "validate_on", T, rel4))
+    mv = re.search(r"matches!\(applied_on,([^)]*\)(?:\|[^)]*\))*)\)", vo)
+    if not mv:
+        raise ExtractionError(T, rel4, "Allow::validate_on has an unexpected shape")
+    bad_targets = re.findall(r"Attributables::(\w+)\(_\)", mv.group(1))
+    if not re.search(r'implement_attribute_kind_for!\(Allow,\s*"allow",\s*true\)', asrc):
+        raise ExtractionError(T, rel4, 'implement_attribute_kind_for!(Allow, "allow", true) not found')
+
+    # ---- attribute inheritance (`all_attributes`) ----------------------------------------------------
+    rel5 = "slicec/src/grammar/traits.rs"
+    tsrc = re.sub(r"\s+", "", read(repo, rel5, T))
+    if "(@Contained$type:ty$(,$($bounds:tt)+)?)=>{" not in tsrc or \
+       "letmutattributes_list=self.attributes();attributes_list.extend(self.parent().all_attributes());attributes_list" not in tsrc:
+        raise ExtractionError(T, rel5, "implement_Attributable_for!(@Contained ..) is not `own ++ parent.all_attributes()`")
+    contained, plain = [], []
+    edir = os.path.join(repo, "slicec", "src", "grammar", "elements")
+    parents = {}
+    for fn in sorted(os.listdir(edir)):
+        if not fn.endswith(".rs"):
+            continue
+        es = read(repo, "slicec/src/grammar/elements/" + fn, T)
+        for mm in re.finditer(r"implement_Attributable_for!\(\s*(@Contained\s+)?(\w+)", es):
+            (contained if mm.group(1) else plain).append(mm.group(2))
+        for mm in re.finditer(r"implement_Contained_for!\(\s*(\w+)\s*,\s*([^)]*)\)", es):
+            par = re.sub(r"\s+", "", mm.group(2))
+            par = {"dynContainer<Field>+'static": "Container<Field>"}.get(par, par)
+            parents[mm.group(1)] = par
+    for c in contained:
+        if c not in parents:
+            raise ExtractionError(T, "slicec/src/grammar/elements", f"{c} inherits attributes but has no implement_Contained_for!")
+    cont_rows = [(c, parents[c]) for c in sorted(contained)]
+
+    def q(x):
+        return '"' + x.replace("\\", "\\\\").replace('"', '\\"') + '"'
+
+    def lst(xs):
+        return "[" + ", ".join(xs) + "]"
+
+    text = f"""-- GENERATED by translator/extract.py from slicec/src/diagnostics/{{lints,mod,diagnostic}}.rs, grammar/attributes/allow.rs,
+-- grammar/traits.rs, grammar/elements/*.rs and every `set_scope` call site — do not edit.
+namespace Slicec.Gen
+
+/-- lint kinds in the order of `implement_diagnostic_functions!(Lint, …)`; `Lint::code()` = `stringify!(kind)` -/
+def lintKinds : List String := {lst(q(k) for k in kinds)}
+/-- `Lint::ALLOWABLE_LINT_IDENTIFIERS` -/
+def allowableLintIdentifiers : List String := {lst(q(k) for k in allowable)}
+/-- `Lint::get_default_level` as (kind, level) -/
+def lintDefaultLevels : List (String × String) := {lst(f"({q(a)}, {q(b)})" for a, b in rows)}
+/-- the identifier that names every lint in `is_lint_allowed_by` -/
+def allowAllIdentifier : String := {q(all_kw)}
+/-- `is_lint_allowed_by` compares with `eq_ignore_ascii_case` (true) or with `==` (false) -/
+def allowCompareIgnoresCase : Bool := {"true" if ignore_case else "false"}
+/-- (lint kind, file, argument of `.set_scope(…)`; `-` = neither scope nor span, `-span` = span but no scope) per creation site -/
+def lintScopeSites : List (String × String × String) := {lst(f"({q(a)}, {q(b)}, {q(c)})" for a, b, c in sites)}
+/-- arguments `Allow::parse_from` rejects although they are allowable identifiers -/
+def allowAttrRejected : List String := {lst(q(k) for k in rejected)}
+/-- `Attributables` variants on which `Allow::validate_on` reports an error -/
+def allowInvalidTargets : List String := {lst(q(k) for k in bad_targets)}
+/-- element kinds whose `all_attributes()` = own ++ parent's (`implement_Attributable_for!(@Contained T)`), with the parent type -/
+def attributeInheritance : List (String × String) := {lst(f"({q(a)}, {q(b)})" for a, b in cont_rows)}
+/-- element kinds whose `all_attributes()` = own attributes only -/
+def attributeOwnOnly : List String := {lst(q(k) for k in sorted(plain))}
+
+end Slicec.Gen
+"""
+    return text, len(kinds) + len(allowable) + len(rows) + len(sites) + len(rejected) + len(bad_targets) + len(cont_rows) + len(plain) + 2
+
+
 TABLES = {
+    "Lints": gen_lints,
     "ResolveKinds": gen_resolve_kinds,
     "DriverShape": gen_driver_shape,
     "Preproc": gen_preproc_tables,
